@@ -36,7 +36,7 @@ impl Monitor for C10 {
         if tier == Tier::Sanitizer {
             vec!["windows_checked"]
         } else {
-            vec!["windows_checked", "rx1_offset_in_force", "rx2_override_in_force", "dlchannel_in_force", "rxdelay_in_force", "join_windows_checked", "classc_gap_checked", "fixed_500k_channel", "nb_timing_checked", "async_timing_checked", "remapped_channel_redefined", "refused_rxparamsetup_steps"]
+            vec!["windows_checked", "rx1_offset_in_force", "rx2_override_in_force", "dlchannel_in_force", "rxdelay_in_force", "join_windows_checked", "classc_gap_checked", "fixed_500k_channel", "nb_timing_checked", "async_timing_checked", "remapped_channel_redefined", "refused_rxparamsetup_steps", "nb_clock_upper_half"]
         }
     }
 
@@ -257,8 +257,13 @@ fn check_windows(reg: Reg, front: Front, join: bool, snap: &lorawan_device::veri
     }
     // ---- timing -----------------------------------------------------------------------------------
     let d1: u64 = if join { 5000 } else { snap.rx1_delay as u64 };
-    let exp_t1 = (d1 + tx_done_ms as u64).saturating_sub(lead as u64);
-    let exp_t2 = exp_t1 + 1000;
+    let mut exp_t1 = (d1 + tx_done_ms as u64).saturating_sub(lead as u64);
+    let mut exp_t2 = exp_t1 + 1000;
+    if nb {
+        // a 32-bit millisecond clock: instants are taken modulo 2^32
+        exp_t1 &= 0xFFFF_FFFF;
+        exp_t2 &= 0xFFFF_FFFF;
+    }
     if nb {
         col.event("nb_timing_checked");
         // [t1, close1, t2, close2]
@@ -303,7 +308,12 @@ fn data_case(reg: Reg, front: Front, dslot: Option<usize>, off: Option<u8>, dcla
         return;
     };
     let lead = *rng.pick(&[0u32, 50, 300]);
-    let txd = *rng.pick(&[0u32, 57, 1800]);
+    // (the state-machine front-end works on the board's 32-bit millisecond clock: also instants in
+    // its upper half and just before it wraps, i.e. after 24.8 and 49.7 days of uptime)
+    let txd = if front == Front::Nb && rng.chance(1, 4) { *rng.pick(&[0x7FFF_FD00u32, 0x7FFF_FFFF, 0x8000_1000, 0xC000_0000, 0xFFFF_F000, 0xFFFF_FFFF]) } else { *rng.pick(&[0u32, 57, 1800]) };
+    if txd > 0x7000_0000 {
+        col.event("nb_clock_upper_half");
+    }
     {
         let mut l = link.dev.log.borrow_mut();
         l.lead_ms = lead;
@@ -499,7 +509,12 @@ fn join_case(reg: Reg, front: Front, rng: &mut Prng, col: &mut Collector) {
     let opts = DevOpts { rng_seed: None, rng_start: rng.next_u32(), bias };
     let mut dev: Dev = Dev::new(front, reg, creds.clone(), &opts);
     let lead = *rng.pick(&[0u32, 50, 300]);
-    let txd = *rng.pick(&[0u32, 57, 1800]);
+    // (the state-machine front-end works on the board's 32-bit millisecond clock: also instants in
+    // its upper half and just before it wraps, i.e. after 24.8 and 49.7 days of uptime)
+    let txd = if front == Front::Nb && rng.chance(1, 4) { *rng.pick(&[0x7FFF_FD00u32, 0x7FFF_FFFF, 0x8000_1000, 0xC000_0000, 0xFFFF_F000, 0xFFFF_FFFF]) } else { *rng.pick(&[0u32, 57, 1800]) };
+    if txd > 0x7000_0000 {
+        col.event("nb_clock_upper_half");
+    }
     {
         let mut l = dev.log.borrow_mut();
         l.lead_ms = lead;
